@@ -320,7 +320,7 @@ let set_aliases =
 (** val fill_clears_nontrivial : bool **)
 
 let fill_clears_nontrivial =
-  false
+  true
 
 (** val freq_array : z -> z -> z -> z list **)
 
